@@ -436,6 +436,11 @@ def freshness_native(chk):
     record('graph module tables unchanged', tables() == table_before, detail=f'{len(table_before)} module-level tables')
     # models
     pm = real_module('peaks.model')
+
+    def _poison(obj, attr, token):
+        target = getattr(obj, attr, None)
+        if isinstance(target, set):
+            target.add(token)
     chk.function('peaks.model', 'Model.with_prefix / param_names / __add__ / CompositeModel')
     bad = []
     model_makers = (lambda: pm.GaussianModel(prefix='a_'), lambda: pm.GaussianModel(), lambda: pm.LorentzianModel(), lambda: pm.LorentzianModel(prefix='l_'), lambda: pm.PseudoVoigtModel(),
@@ -452,9 +457,11 @@ def freshness_native(chk):
         w = m.with_prefix('zz_')
         if w is m or m.param_names != names or w.param_names == names:
             bad.append(f'{type(m).__name__}.with_prefix')
-        w._param_names.add('poison2')
-        w._prefixed_param_names.add('poison3')
-        if m.param_names != names or m._param_names != {n[len(m.prefix):] for n in names}:
+        # (private state, where it exists in this form and is mutable: an immutable or absent container cannot leak)
+        _poison(w, '_param_names', 'poison2')
+        _poison(w, '_prefixed_param_names', 'poison3')
+        own = getattr(m, '_param_names', None)
+        if m.param_names != names or (isinstance(own, set | frozenset) and own != {n[len(m.prefix):] for n in names}):
             bad.append(f'{type(m).__name__}.with_prefix shares state with the original')
         b = dict(m.param_bounds)
         handed_out = m.param_bounds
@@ -469,7 +476,8 @@ def freshness_native(chk):
     left, right = pm.GaussianModel(prefix='l_'), pm.LorentzianModel(prefix='r_')
     ln, rn = set(left.param_names), set(right.param_names)
     c1 = left + right
-    c1._param_names.add('poison')
+    _poison(c1, '_param_names', 'poison')
+    c1.param_names.add('poison')
     c2 = left + right
     if left.param_names != ln or right.param_names != rn or 'poison' in c2.param_names or c1 is c2:
         bad.append('Model.__add__ / CompositeModel')
